@@ -39,3 +39,20 @@ Proof.
   split; [reflexivity|]. intros [H|H]; vm_compute in H; discriminate.
 Qed.
 Print Assumptions C03_iga_iterator_write_refuted.
+
+(* i_mep: *it = gene through the non-const begin() after signature() *)
+Definition rX := mk_sym 0 0 [] false.
+Definition rY := mk_sym 1 0 [] false.
+Definition r_g : genome :=
+  {| rows := 1; cats := 1; best := mk_locus 0 0;
+     cell := fun r c => match r, c with 0%nat, 0%nat => Some (mk_gene rX F64.zero []) | _, _ => None end |}.
+Theorem C03_mep_iterator_write_refuted :
+  exists x y, cache_ok hash_mep x /\
+              mep_step (fun _ _ => false) x (MIterWrite (mk_locus 0 0) (mk_gene rY F64.zero [])) = Some y /\
+              ~ cache_ok hash_mep y.
+Proof.
+  destruct (signature hash_mep (clear r_g)) as [[h x]|] eqn:E; [|vm_compute in E; discriminate].
+  exists x. vm_compute in E. inversion E. subst. eexists. split; [right; vm_compute; reflexivity|].
+  split; [reflexivity|]. intros [H|H]; vm_compute in H; discriminate.
+Qed.
+Print Assumptions C03_mep_iterator_write_refuted.
